@@ -15,7 +15,8 @@ RULE_FRONTIER = (
     "the table content), road-class ids over the full u8 range with ids that differ by multiples of 64, ill-typed/missing vehicle parameters and axle counts, restriction "
     "rows the builder must refuse, road-class queries (numeric, names, mixed, empty, out of range, ill-typed; with and "
     "without mapping), short class table, turn pairs, combined models of 0-4 inner models (early false, error order, "
-    "nesting), edge cuts; then random configurations. I vs M bit-exact; S = admissibility from the raw tables over exact "
+    "nesting), edge cuts, SEQUENCES of 2-6 queries on ONE service instance (same numbers in other units, van/truck in both orders, changing class "
+    "sets; each query's verdict table judged for that query alone; also one random case in five); then random configurations. I vs M bit-exact; S = admissibility from the raw tables over exact "
     "rationals (undecided within 1e-9 of a limit). non-trivial = the model admits some and refuses some probed edge, or "
     "the build is refused; distinct by (configuration, query, cut)")
 RULE_SEARCH = (
@@ -164,7 +165,7 @@ def run(chk):
             replay_stream = "frontier"
 
     if replay_stream in (None, "frontier"):
-        n = 8000 if thorough else 700
+        n = 8000 if thorough else 900
         r = vf.run_stream(binp, "frontier", n, chk.seed, os.path.join(chk.outdir, "frontier"), replay=chk.replay)
         chk.add_stream(r, RULE_FRONTIER)
         vf.compare(chk, r, classify=classify, binpath=binp)
@@ -191,7 +192,7 @@ def run(chk):
     if replay_stream in (None, "app_frontier"):
         # end to end: the same raw-table judge on what CompassApp::run returns (harness/src/bin/e2e.rs)
         binp_app = vf.build_harness("e2e")
-        r = vf.run_stream(binp_app, "app_frontier", 1300 if thorough else 150, chk.seed, os.path.join(chk.outdir, "app_frontier"),
+        r = vf.run_stream(binp_app, "app_frontier", 1300 if thorough else 260, chk.seed, os.path.join(chk.outdir, "app_frontier"),
                           replay=chk.replay)
         chk.add_stream(r, RULE_APP)
         vf.compare(chk, r, classify=classify, binpath=binp_app)
